@@ -59,6 +59,16 @@ def localize(ctx, vh, model, case):
 
 def run(ctx):
     ctx.check_props(extra_files=("Findings/C09.v",))
+    # the SSSE3 routines are re-read from the assembly source and the theorems re-checked against them
+    import os as _os0
+    import vlib as _vlib
+    gen_fail = None
+    try:
+        ctx.check_genlink(lambda out: ["python3", _os0.path.join(_vlib.VERIF, "tools", "asm2coq.py"),
+                                       _os0.path.join(_vlib.REPO, "gf2p16", "slice_amd64.s"), out],
+                          "Ssse3Gen", "Ssse3GenLink", "C09.gen")
+    except _vlib.Fail as e:
+        gen_fail = str(e)       # keep going: the differential runs below search for a concrete failing input
     model = ctx.build_model()
     vh = ctx.build_harness()
     vh386 = ctx.build_harness(goarch="386")
@@ -178,6 +188,10 @@ def run(ctx):
         if m != want.hex():
             ctx.violation("%s: instruction-level SSSE3 loop model differs from field multiplication" % c[:50],
                           {"cases": [c], "model": m, "want": want.hex(), "class": {"path": "ssse3-chunks-model"}}, no_failing_input=True)
+    if gen_fail:
+        ctx.violation("the SSSE3 theorems no longer check against the assembly source: %s%s" % (gen_fail[:700], " (a concrete failing input was found by the differential runs: see the other violations)" if ctx.violations else ""),
+                      {"cases": [], "theorem": "coq/GenLink/Ssse3GenLink.v (gen_*_eq / GEN_*) against Ssse3Gen.v regenerated by tools/asm2coq.py", "detail": gen_fail[-3000:],
+                       "class": {"path": "ssse3-genlink"}}, no_failing_input=not ctx.violations)
     return ctx.finish(
         "proof",
         rule="case = (path, mul|muladd, constant, length, data, alignments); each case runs the kernel with both buffers ending at a PROT_NONE page, starting after one, and at up to 64 src/dst alignments between canaries; non-trivial = constant not 0/1 and length >= 2",
